@@ -317,6 +317,17 @@ func (r *Rig) NewStore(rows []Row) (*Store, error) {
 	return s, nil
 }
 
+// Clone returns a store whose copies of t (logical and physical) can be modified without
+// touching s; t2 and g are shared.
+func (s *Store) Clone() *Store {
+	isT := func(t *sqlref.Table) bool { return t.Name == "t" || strings.HasPrefix(t.Name, "t_") }
+	n := &Store{Union: s.Union.CloneWith(isT), Shards: make(map[string]*sqlref.DB, len(s.Shards)), TableOf: s.TableOf, Phys: s.Phys}
+	for k, d := range s.Shards {
+		n.Shards[k] = d.CloneWith(isT)
+	}
+	return n
+}
+
 // Call is one statement the plan sent to a backend.
 type Call struct {
 	Slice, DB, SQL string
